@@ -63,7 +63,7 @@ for outdir in sys.argv[1:]:
                 shutil.copy(d / f, dst / f)
             meta = json.loads((d / "meta.json").read_text())
             meta["confirmation"] = dict(by="coordinator, scratch worktree /tmp/confirm_wt at /repo " + head,
-                                        ran="git apply; ninja; ctest (100% passed); demo unpatched exit 0; demo patched exit %s" % res["demo_patched"][0])
+                                        ran="git apply; ninja; ctest (100%% passed); demo unpatched exit 0; demo patched exit %s" % res["demo_patched"][0])
             (dst / "meta.json").write_text(json.dumps(meta, indent=1))
         sh("git -C %s checkout -- ." % WT)
 log("done")
